@@ -198,6 +198,10 @@ STEMS = {
     "nth_root", "gcd", "lcm", "div_rem", "div_mod_floor", "sum", "product", "bits", "bit", "set_bit",
     "from_bits", "to_bits", "cast_signed", "cast_unsigned", "isqrt",
 }
+# complement of a predicate (used when a forwarder negates its head)
+NEGATED = {"lt": "ge", "ge": "lt", "le": "gt", "gt": "le", "eq": "ne", "ne": "eq",
+           "is_negative": "is_nonnegative", "is_positive": "is_nonpositive", "is_zero": "is_nonzero"}
+STEMS |= {"is_nonnegative", "is_nonpositive", "is_nonzero"}
 # stems that coincide for unsigned operands
 UNSIGNED_EQUIV = [{"div", "div_euclid", "div_floor"}, {"rem", "rem_euclid", "mod_floor"}, {"abs_diff"}]
 # converse pairs: f(a,b) == g(b,a)
@@ -293,6 +297,9 @@ def forwarder(tree, debug):
         elif v[0] == "OUT" and v[2] == 0:
             wraps.append("out0")
             v = v[1]
+        elif v[0] == "U" and v[1] == "Not":
+            wraps.append("not")
+            v = v[2]
         else:
             break
     if v[0] != "C":
@@ -304,6 +311,12 @@ def forwarder(tree, debug):
     expect_head = v in guards
     name = method_name(head)
     mode, stem = stem_mode(name)
+    if wraps.count("not") % 2 == 1:
+        # logical negation of a predicate: only predicates with a known complement are comparable
+        if stem not in NEGATED:
+            return None
+        stem = NEGATED[stem]
+    wraps = [w for w in wraps if w != "not"]
     proj = [w for w in wraps if w.startswith(".")]
     cmode = mode
     if mode == "overflowing" and proj == [".0"]:
